@@ -141,20 +141,24 @@ Proof.
   intros H. do 5 (destruct n as [|n]; [vm_compute; congruence|]). lia.
 Qed.
 
-(* cursor after the length field is at most 5 bytes on; the length is a u_int *)
-Lemma post_asn_parse_length b p :
-  bytes_ok b -> 0 <= p -> p + 5 <= bsize b ->
-  post (asn_parse_length b p) (fun '(p', alen) => p < p' <= p + 5 /\ 0 <= alen < 4294967296).
+(* bytes the length field starting with octet [x] occupies after that octet *)
+Definition lenfield_extra (x : Z) : Z := if Z.land x 128 =? 0 then 0 else Z.land x 127.
+
+(* the length field at [p] is read inside [p, hi) when it fits there; the length is a u_int *)
+Lemma post_asn_parse_length b p hi :
+  bytes_ok b -> 0 <= p -> hi <= bsize b -> p + 1 + lenfield_extra (bget b p) <= hi ->
+  post (asn_parse_length b p) (fun '(p', alen) => p < p' <= hi /\ 0 <= alen < 4294967296).
 Proof.
-  intros HB H0 H1. unfold asn_parse_length.
-  eapply post_bind; [apply post_rd_byte; [exact HB | lia]|]; cbv beta. intros lb Hlb.
-  destruct (negb (Z.land lb asn_long_len =? 0)) eqn:E1; [|cbn [post]; lia].
-  change (255 - asn_long_len) with 127.
-  pose proof (land_127 lb) as Hn.
-  destruct (Z.land lb 127 =? 0) eqn:E2; [exact I|].
+  intros HB H0 H1 H2. unfold asn_parse_length. unfold lenfield_extra in H2.
+  pose proof (land_127 (bget b p)) as Hn0.
+  eapply post_bind; [apply post_rd; destruct (Z.land (bget b p) 128 =? 0); lia|]; cbv beta. intros lb ->.
+  pose proof (HB p) as Hlb.
+  change asn_long_len with 128. change (255 - 128) with 127.
+  destruct (Z.land (bget b p) 128 =? 0) eqn:E1; cbn [negb]; [cbn [post]; lia|].
+  destruct (Z.land (bget b p) 127 =? 0) eqn:E2; [exact I|].
   change sizeof_int with 4.
-  destruct (4 <? Z.land lb 127) eqn:E3; [exact I|].
-  set (n := Z.land lb 127) in *.
+  destruct (4 <? Z.land (bget b p) 127) eqn:E3; [exact I|].
+  set (n := Z.land (bget b p) 127) in *.
   eapply post_bind; [apply post_rd_be; [exact HB | lia | rewrite Z2Nat.id by lia; lia | lia]|]; cbv beta.
   intros v Hv. cbn [post].
   assert (Hle : 256 ^ Z.of_nat (Z.to_nat n) <= 4294967296) by (apply pow256_le; lia).
@@ -162,21 +166,53 @@ Proof.
 Qed.
 
 (* The invariant of all readers: cursor [p], remaining length [dl], inside the received [len] bytes of an object
-   that has [slack] bytes after them. *)
+   that has at least one byte after them. *)
 Definition inv (b : buf) (len p dl : Z) : Prop :=
-  0 <= p /\ 0 <= dl /\ p + dl <= len /\ len + 6 <= bsize b /\ len < 2147483648.
+  0 <= p /\ 0 <= dl /\ p + dl <= len /\ len + 1 <= bsize b /\ len < 2147483648.
 
 Lemma u32_small z : 0 <= z < 4294967296 -> u32 z = z.
 Proof. intros H. unfold u32. apply Z.mod_small. exact H. Qed.
+
+(* asn_header_fits: when it says yes, identifier octet and length field lie inside the remaining bytes *)
+Lemma post_asn_header_fits b len p dl :
+  inv b len p dl ->
+  post (asn_header_fits b p dl)
+       (fun ok => ok = true -> 2 <= dl /\ p + 2 + lenfield_extra (bget b (p + 1)) <= p + dl).
+Proof.
+  intros (H0 & H1 & H2 & H3 & H4). unfold asn_header_fits, lenfield_extra.
+  destruct (dl <? 2) eqn:E; [cbn [post]; discriminate|].
+  eapply post_bind; [apply post_rd; lia|]; cbv beta. intros x ->.
+  change asn_long_len with 128. change (255 - 128) with 127.
+  destruct (Z.land (bget b (p + 1)) 128 =? 0) eqn:E1; cbn [negb post]; intros Hok; lia.
+Qed.
+
+(* common prologue of the five readers: guard, identifier octet, length field *)
+Lemma post_reader_prologue b len p dl {A} (k : Z -> Z * Z -> res A) (Q : A -> Prop) :
+  bytes_ok b -> inv b len p dl ->
+  (forall t p' alen, p + 1 < p' <= p + dl -> 0 <= alen < 4294967296 -> post (k t (p', alen)) Q) ->
+  post (do fits <- asn_header_fits b p dl; if negb fits then Fail else
+        do t <- rd b p; do pa <- asn_parse_length b (p + 1); k t pa) Q.
+Proof.
+  intros HB HI HK. pose proof HI as (H0 & H1 & H2 & H3 & H4).
+  eapply post_bind; [apply (post_asn_header_fits b len); exact HI|]; cbv beta.
+  intros fits Hf. destruct fits; cbn [negb]; [|exact I].
+  destruct (Hf eq_refl) as [Hd Hx].
+  eapply post_bind; [apply post_rd; lia|]; cbv beta. intros t _.
+  eapply post_bind; [apply (post_asn_parse_length b (p + 1) (p + dl)); [exact HB | lia | lia | lia]|]; cbv beta.
+  intros [p' alen] [Hp Ha]. apply HK; lia.
+Qed.
 
 Lemma post_asn_parse_header b len p dl :
   bytes_ok b -> inv b len p dl ->
   post (asn_parse_header b p dl) (fun '(p', dl', t) => inv b len p' dl' /\ p < p' /\ p' + dl' <= p + dl).
 Proof.
-  intros HB (H0 & H1 & H2 & H3 & H4). unfold asn_parse_header.
+  intros HB HI. pose proof HI as (H0 & H1 & H2 & H3 & H4). unfold asn_parse_header.
+  eapply post_bind; [apply (post_asn_header_fits b len); exact HI|]; cbv beta.
+  intros fits Hf. destruct fits; cbn [negb]; [|exact I].
+  destruct (Hf eq_refl) as [Hd Hx].
   eapply post_bind; [apply post_rd; lia|]; cbv beta. intros t _.
   destruct (Z.land t asn_extension_id =? asn_extension_id); [exact I|].
-  eapply post_bind; [apply post_asn_parse_length; [exact HB | lia | lia]|]; cbv beta.
+  eapply post_bind; [apply (post_asn_parse_length b (p + 1) (p + dl)); [exact HB | lia | lia | lia]|]; cbv beta.
   intros [p' alen] [Hp Ha].
   change asn_max_len with 524288.
   destruct ((u32 dl <? u32 (p' - p + alen)) || (524288 <? alen)) eqn:E; [exact I|].
@@ -190,10 +226,9 @@ Lemma post_asn_parse_int b len p dl :
   bytes_ok b -> inv b len p dl ->
   post (asn_parse_int b p dl) (fun '(p', dl', t, v) => inv b len p' dl' /\ p < p' /\ p' + dl' <= p + dl).
 Proof.
-  intros HB (H0 & H1 & H2 & H3 & H4). unfold asn_parse_int.
-  eapply post_bind; [apply post_rd; lia|]; cbv beta. intros t _.
-  eapply post_bind; [apply post_asn_parse_length; [exact HB | lia | lia]|]; cbv beta.
-  intros [p' alen] [Hp Ha].
+  intros HB HI. pose proof HI as (H0 & H1 & H2 & H3 & H4). unfold asn_parse_int.
+  apply (post_reader_prologue b len p dl); [exact HB | exact HI|].
+  intros t p' alen Hp Ha.
   destruct (dl <? alen + (p' - p)) eqn:E1; [exact I|].
   change sizeof_int with 4.
   destruct (4 <? alen) eqn:E2; [exact I|].
@@ -206,10 +241,9 @@ Lemma post_asn_parse_unsigned_int b len p dl :
   bytes_ok b -> inv b len p dl ->
   post (asn_parse_unsigned_int b p dl) (fun '(p', dl', t, v) => inv b len p' dl' /\ p < p' /\ p' + dl' <= p + dl).
 Proof.
-  intros HB (H0 & H1 & H2 & H3 & H4). unfold asn_parse_unsigned_int.
-  eapply post_bind; [apply post_rd; lia|]; cbv beta. intros t _.
-  eapply post_bind; [apply post_asn_parse_length; [exact HB | lia | lia]|]; cbv beta.
-  intros [p' alen] [Hp Ha].
+  intros HB HI. pose proof HI as (H0 & H1 & H2 & H3 & H4). unfold asn_parse_unsigned_int.
+  apply (post_reader_prologue b len p dl); [exact HB | exact HI|].
+  intros t p' alen Hp Ha.
   destruct (dl <? alen + (p' - p)) eqn:E1; [exact I|].
   change sizeof_int with 4.
   destruct (4 + 1 <? alen) eqn:E2; [exact I|].
@@ -228,10 +262,9 @@ Lemma post_asn_parse_string keep b len p dl cap dcap :
        (fun '(p', dl', t, n, s) => inv b len p' dl' /\ p < p' /\ p' + dl' <= p + dl /\ 0 <= n <= cap /\
                                     (keep = true -> lenZ s = n)).
 Proof.
-  intros HB (H0 & H1 & H2 & H3 & H4) Hc Hc2. unfold asn_parse_string.
-  eapply post_bind; [apply post_rd; lia|]; cbv beta. intros t _.
-  eapply post_bind; [apply post_asn_parse_length; [exact HB | lia | lia]|]; cbv beta.
-  intros [p' alen] [Hp Ha].
+  intros HB HI Hc Hc2. pose proof HI as (H0 & H1 & H2 & H3 & H4). unfold asn_parse_string.
+  apply (post_reader_prologue b len p dl); [exact HB | exact HI|].
+  intros t p' alen Hp Ha.
   destruct (dl <? alen + (p' - p)) eqn:E1; [exact I|].
   rewrite (u32_small cap) by lia.
   destruct (cap <? alen) eqn:E2; [exact I|].
@@ -284,10 +317,9 @@ Lemma post_asn_parse_objid b len p dl objlen ocap :
   post (asn_parse_objid b p dl objlen ocap)
        (fun '(p', dl', t, ids, n) => inv b len p' dl' /\ p < p' /\ p' + dl' <= p + dl /\ 1 <= n <= ocap).
 Proof.
-  intros HB (H0 & H1 & H2 & H3 & H4) Hc Ho. unfold asn_parse_objid.
-  eapply post_bind; [apply post_rd; lia|]; cbv beta. intros t _.
-  eapply post_bind; [apply post_asn_parse_length; [exact HB | lia | lia]|]; cbv beta.
-  intros [p' alen] [Hp Ha].
+  intros HB HI Hc Ho. pose proof HI as (H0 & H1 & H2 & H3 & H4). unfold asn_parse_objid.
+  apply (post_reader_prologue b len p dl); [exact HB | exact HI|].
+  intros t p' alen Hp Ha.
   destruct (dl <? alen + (p' - p)) eqn:E1; [exact I|].
   eapply (post_bind _ _ (fun _ => True)).
   { destruct (alen =? 0); [|exact I].
@@ -385,10 +417,10 @@ Proof.
   unfold inv in I1. rewrite Nat2Z.inj_succ, Z2Nat.id; lia.
 Qed.
 
-(* THE partial bounds theorem for SNMP: with six bytes of slack after the received bytes no reader leaves the object
-   and no loop budget is exhausted *)
+(* THE bounds theorem for the SNMP decoder: with one byte after the bytes it is asked to decode (asn_parse_int looks at
+   the octet after an empty integer) no reader leaves the object and no loop budget is exhausted *)
 Lemma snmp_msg_decode_safe b len :
-  bytes_ok b -> 0 <= len -> len + 6 <= bsize b -> len < 2147483648 ->
+  bytes_ok b -> 0 <= len -> len + 1 <= bsize b -> len < 2147483648 ->
   safe (snmp_msg_decode b len).
 Proof.
   intros HB H0 H1 H2. apply (post_safe _ (fun _ => True)). unfold snmp_msg_decode.
@@ -429,7 +461,7 @@ Proof. induction l; cbn [lenZ]; lia. Qed.
 
 Lemma snmp_udp_safe size recvmax stale d :
   Forall is_byte d -> (forall i, is_byte (stale i)) ->
-  Z.min (lenZ d) recvmax + 6 <= size -> size < 2147483648 ->
+  Z.min (lenZ d) recvmax + 1 <= size -> size < 2147483648 ->
   snmp_udp size recvmax stale d <> Got OOB /\ snmp_udp size recvmax stale d <> Got NoFuel.
 Proof.
   intros Hd Hs Hl Hsz. unfold snmp_udp.
@@ -444,9 +476,10 @@ Proof.
   destruct HS as [S1 S2]. split; intros HC; injection HC; intros HC'; [apply S1 | apply S2]; exact HC'.
 Qed.
 
-(* ------------------------------------------------------------------ the refutation witness for SNMP *)
+(* ------------------------------------------------------------------ the former over-read witness (regression) *)
 (* a well-formed GET of exactly 4095 bytes: one OCTET STRING variable of 4050 bytes followed by the empty variable
-   `30 00` in the last two bytes; the object identifier of that last variable is looked for at offsets 4095, 4096 *)
+   `30 00` in the last two bytes. Before /repo 71f8893 (asn_header_fits) the object identifier of that last variable was
+   looked for at offsets 4095, 4096 of the 4096-byte buffer; now the reader refuses it without looking. *)
 Definition snmp_witness : list Z :=
   [48; 130; 15; 251; 2; 1; 0; 4; 6; 112; 117; 98; 108; 105; 99; 160; 130; 15; 236; 2; 1; 1; 2; 1; 0; 2; 1; 0;
    48; 130; 15; 223; 48; 130; 15; 217; 6; 1; 43; 4; 130; 15; 210] ++ Z.iter 4050 (cons 65) [48; 0].
@@ -458,19 +491,15 @@ Proof.
   apply andb_prop in H. destruct H as [Hx Hr]. constructor; [unfold is_byteb, is_byte in *; lia | apply IH; exact Hr].
 Qed.
 
-Lemma snmp_witness_bytes : Forall is_byte snmp_witness.
-Proof. apply Forall_is_byte. vm_compute. reflexivity. Qed.
+Lemma snmp_witness_refused stale :
+  lenZ snmp_witness = snmp_request_size - snmp_recv_slack /\
+  snmp_udp snmp_request_size (snmp_request_size - snmp_recv_slack) stale snmp_witness = Got Fail.
+Proof. split; vm_compute; reflexivity. Qed.
 
-Lemma snmp_witness_len : lenZ snmp_witness = 4095.
-Proof. vm_compute. reflexivity. Qed.
-
-Lemma snmp_witness_oob stale :
-  snmp_udp snmp_request_size (snmp_request_size - snmp_recv_slack) stale snmp_witness = Got OOB.
-Proof. vm_compute. reflexivity. Qed.
-
-(* the same datagram one byte shorter (the last variable cut) is harmless *)
-Lemma snmp_witness_short_ok stale :
-  snmp_udp snmp_request_size (snmp_request_size - snmp_recv_slack) stale (removelast snmp_witness) = Got Fail.
+(* on an object of exactly the datagram's size the decoder may still look one byte past the end: an INTEGER of length 0
+   in the last two bytes (asn_parse_int tests the sign bit of the octet after the length field) *)
+Lemma snmp_exact_needs_one_byte :
+  snmp_exact [48; 2; 2; 0] = Got OOB.
 Proof. vm_compute. reflexivity. Qed.
 
 (* ================================================================== writes *)
@@ -953,21 +982,14 @@ Proof.
     [apply htcp_spec_unit_spec | apply htcp_detail_unit_spec]; try assumption; vm_compute; split; congruence.
 Qed.
 
-Lemma snmp_in_bounds_refuted :
-  exists d, Forall is_byte d /\ lenZ d <= snmp_request_size - snmp_recv_slack /\
-            forall stale, snmp_udp snmp_request_size (snmp_request_size - snmp_recv_slack) stale d = Got OOB.
-Proof.
-  exists snmp_witness. split; [exact snmp_witness_bytes | split].
-  - rewrite snmp_witness_len. vm_compute. congruence.
-  - exact snmp_witness_oob.
-Qed.
-
-Lemma snmp_in_bounds_partial stale d :
-  Forall is_byte d -> (forall i, is_byte (stale i)) -> lenZ d + 6 <= snmp_request_size ->
+Lemma snmp_in_bounds stale d :
+  Forall is_byte d -> (forall i, is_byte (stale i)) ->
   snmp_udp snmp_request_size (snmp_request_size - snmp_recv_slack) stale d <> Got OOB /\
   snmp_udp snmp_request_size (snmp_request_size - snmp_recv_slack) stale d <> Got NoFuel.
 Proof.
-  intros Hd Hs Hl. apply snmp_udp_safe; [exact Hd | exact Hs | lia | vm_compute; reflexivity].
+  intros Hd Hs. apply snmp_udp_safe; [exact Hd | exact Hs | | vm_compute; reflexivity].
+  assert (H : snmp_request_size - snmp_recv_slack + 1 <= snmp_request_size) by (vm_compute; congruence).
+  lia.
 Qed.
 
 Lemma icp_unit_in_bounds stale d :
